@@ -780,6 +780,7 @@ class PathEnumerator:
             return self._unrolled(st, p, fr)
         if isinstance(st, ast.For):
             it = it_override if it_override is not None else ev.expr(st.iter, f)
+            it = _concrete_iter(it)
             if it[0] == "concat" and not st.orelse:
                 # a loop over a chain of iterables is the loops over its parts, one after the other
                 live, done = [p], []
@@ -889,6 +890,25 @@ class PathEnumerator:
         if st.orelse:
             outs = [x for x in outs if x.exit != "fall"] + self.block(st.orelse, [x for x in outs if x.exit == "fall"], fr)
         return outs
+
+
+def _concrete_iter(it: Term) -> Term:
+    """``reversed`` / ``zip`` / ``list`` / ``tuple`` of displays of known length are the display they produce (so that a loop over them unrolls)."""
+    def plain(x):
+        while x[0] == "var" and len(x) > 3 and isinstance(x[3], tuple):
+            x = x[3]
+        return x
+    t = plain(it)
+    if t[0] == "call" and t[1] in ("reversed", "zip", "list", "tuple") and t[2] and not t[3]:
+        args = [plain(_concrete_iter(a)) for a in t[2]]
+        if all(a[0] in ("list", "tuple") and not any(x[0] == "star" for x in a[1]) for a in args):
+            if t[1] == "reversed" and len(args) == 1:
+                return ("list", tuple(reversed(args[0][1])))
+            if t[1] in ("list", "tuple") and len(args) == 1:
+                return (t[1], tuple(args[0][1]))
+            if t[1] == "zip" and len({len(a[1]) for a in args}) == 1:
+                return ("list", tuple(("tuple", tuple(a[1][i] for a in args)) for i in range(len(args[0][1]))))
+    return it
 
 
 def _fresh_container(v: Term) -> bool:
